@@ -49,6 +49,27 @@ def exact_eq(a, b):
     return a == b
 
 
+def twin(v):
+    """The same content with every scalar leaf replaced by a value that compares `==` to it but has a
+    different JSON type (or sign of zero): 0 <-> False, 1 <-> True, other integral numbers int <-> float,
+    0.0 <-> -0.0.  Built-in dict/list treat `x[k] = twin` as a change; so must every collection."""
+    if isinstance(v, dict):
+        return {k: twin(x) for k, x in v.items()}
+    if isinstance(v, (list, tuple)):
+        return [twin(x) for x in v]
+    if isinstance(v, bool):
+        return int(v)
+    if isinstance(v, int):
+        if v in (0, 1):
+            return bool(v)
+        return float(v) if abs(v) < 2 ** 53 else v
+    if isinstance(v, float):
+        if v == 0:
+            return -v
+        return int(v) if v.is_integer() and abs(v) < 2 ** 53 else v
+    return v
+
+
 def is_plain(v):
     """Built-in JSON data all the way down (exact built-in types)."""
     if type(v) is dict:
